@@ -157,6 +157,13 @@ func prestart(sc *scenario) *prestarted {
 	return p
 }
 
+// warm hashes the source value once (a look-up in a non-empty map keyed like the hub
+// registry): the body of a padSrc is then in memory and in cache when the two parties hash it.
+func warm(src any) {
+	m := map[any]bool{0: true}
+	_ = m[src]
+}
+
 // both runs a and b concurrently (each in a goroutine of its own) and waits for them.
 func both(a, b func()) {
 	var wg sync.WaitGroup
@@ -170,7 +177,7 @@ func both(a, b func()) {
 func generateAttach(rng *rand.Rand, thorough bool) []*scenario {
 	rounds := 5
 	if thorough {
-		rounds = 30
+		rounds = 20
 	}
 	var out []*scenario
 	for _, ctor := range attachCtors {
@@ -180,9 +187,16 @@ func generateAttach(rng *rand.Rand, thorough bool) []*scenario {
 					// who leaves the rendez-vous late, and by how much: the distance from there to the
 					// hub look-up differs by party (a goroutine hand-over in the configured constructor)
 					lateParty := rng.Intn(2)
-					late := []int{0, 0, 100, 200, 400, 800, 1500, 3000, 6000}[rng.Intn(9)]
+					late := []int{0, 100, 200, 400, 700, 1000, 1400, 1900, 2500, 3200}[rng.Intn(10)]
 					if key != "pointer" {
-						late *= 4
+						// hashing the key takes some 20 us: any lateness below that keeps both look-ups in
+						// the window
+						late = []int{0, 1000, 2000, 4000, 7000, 11000, 15000}[rng.Intn(7)]
+					}
+					if comp != "second-handler" && rng.Intn(3) > 0 {
+						// the competitor is the late one more often: its way from the rendez-vous to the
+						// look-up is the shorter one, and the hub created first is then the handler's
+						lateParty = 1
 					}
 					m := 3
 					tag := fmt.Sprintf("a-%s-%s-%s-%d-%d", ctor, comp, key, i, rng.Int31())
